@@ -222,3 +222,17 @@ package sstables
 //@ func (*SSTableStreamWriter).Close
 //@   assumed
 //@   modifies writer.*, writer.metaData.*
+
+// ---------------------------------------------------------------------------------------------------
+// Table reader vocabulary (SSTableReaderI): rpath(r) - base path, rmeta(r) - metadata object; both fixed for the reader's life.
+
+//@ spec func rpath(r Ref) Str
+//@ spec func rmeta(r Ref) Ref
+
+//@ iface SSTableReaderI.BasePath
+//@   ensures r0 == rpath(this)
+//@   pure
+
+//@ iface SSTableReaderI.MetaData
+//@   ensures r0 == rmeta(this) && r0 != nil
+//@   pure
